@@ -615,6 +615,150 @@ theorem parseFrame_wire (tag : Nat) (m : Msg) (h : m.inDomain = true) (htag : ta
     rw [bodyOf_length]; have := inDomain_size m h; omega
   exact parseFrame_enc tag _ _ (bodyOf_type m) hsz htag
 
+/-! ### the byte stream: whole frames, one after the other -/
+
+/-- the canonical bytes of a frame -/
+def encFrame (f : Frame) : Bytes :=
+  be32 (4 + f.body.length) ++ ([toU 256 f.ty] ++ encodeTag f.tag) ++ f.body
+
+theorem encFrame_length (f : Frame) : (encFrame f).length = 8 + f.body.length := by
+  simp [encFrame, be32, encodeTag]; omega
+
+theorem be32_val (n : Nat) (h : n < 4294967296) :
+    n / 16777216 % 256 * 16777216 + n / 65536 % 256 * 65536 + n / 256 % 256 * 256 + n % 256 = n := by
+  omega
+
+theorem u32?_be32 (n : Nat) (r : Bytes) (h : n < 4294967296) : u32? (be32 n ++ r) = some n := by
+  simp only [be32, u32?, List.cons_append, List.nil_append, be32_val n h]
+
+/-- a chunk that starts with its own length prefix comes off the front of any stream -/
+theorem splitStreamFuel_cons (n : Nat) (x rest : Bytes) (fuel : Nat) (hn : n < 4294967296) (h4 : 4 ≤ n)
+    (hx : x.length = n) :
+    splitStreamFuel (fuel + 1) (be32 n ++ x ++ rest) =
+      match splitStreamFuel fuel rest with
+      | none => none
+      | some cs => some ((be32 n ++ x) :: cs) := by
+  have hne : (be32 n ++ x ++ rest).isEmpty = false := by simp [be32]
+  have hu : u32? (be32 n ++ x ++ rest) = some n := by
+    rw [List.append_assoc]; exact u32?_be32 n _ hn
+  have ht : take? (4 + n) (be32 n ++ x ++ rest) = some (be32 n ++ x, rest) := by
+    have := take?_append (be32 n ++ x) rest
+    rw [List.length_append, be32_length, hx] at this
+    exact this
+  rw [splitStreamFuel]
+  simp only [hne, hu, ht, Bool.false_eq_true, if_false, Nat.not_lt.2 h4]
+  cases splitStreamFuel fuel rest <;> rfl
+
+
+theorem splitStreamFuel_nil (fuel : Nat) : splitStreamFuel fuel [] = some [] := by
+  cases fuel <;> simp [splitStreamFuel]
+
+/-- a byte string that begins with the 4-byte count of the bytes that follow it (≥ 4: type and tag) -/
+def isChunk (c : Bytes) : Prop := ∃ n x, c = be32 n ++ x ∧ x.length = n ∧ 4 ≤ n ∧ n < 4294967296
+
+theorem isChunk_length {c : Bytes} (h : isChunk c) : 8 ≤ c.length := by
+  obtain ⟨n, x, rfl, hx, h4, _⟩ := h
+  simp [be32]; omega
+
+/-- prefix code: a concatenation of chunks splits back into exactly those chunks -/
+theorem splitStreamFuel_flatten (cs : List Bytes) : ∀ (fuel : Nat), (∀ c ∈ cs, isChunk c) →
+    cs.flatten.length ≤ fuel → splitStreamFuel fuel cs.flatten = some cs := by
+  induction cs with
+  | nil => intro fuel _ _; exact splitStreamFuel_nil fuel
+  | cons c cs ih =>
+    intro fuel hok hlen
+    have hc := hok c List.mem_cons_self
+    have h8 := isChunk_length hc
+    obtain ⟨n, x, rfl, hx, h4, hn⟩ := hc
+    simp only [List.flatten_cons, List.length_append] at hlen ⊢
+    obtain ⟨fuel', rfl⟩ : ∃ k, fuel = k + 1 := ⟨fuel - 1, by simp only [List.length_append] at h8; omega⟩
+    rw [splitStreamFuel_cons n x _ fuel' hn h4 hx,
+      ih fuel' (fun g hg => hok g (List.mem_cons_of_mem _ hg)) (by simp only [List.length_append] at h8; omega)]
+
+theorem splitStream_flatten (cs : List Bytes) (h : ∀ c ∈ cs, isChunk c) : splitStream cs.flatten = some cs :=
+  splitStreamFuel_flatten cs _ h (Nat.le_refl _)
+
+theorem isChunk_encFrame (f : Frame) (h : 4 + f.body.length < 4294967296) : isChunk (encFrame f) := by
+  refine ⟨4 + f.body.length, [toU 256 f.ty] ++ encodeTag f.tag ++ f.body, ?_, ?_, by omega, h⟩
+  · simp [encFrame]
+  · simp [encodeTag]; omega
+
+def frameOk (f : Frame) : Bool :=
+  inI8 f.ty && decide (f.tag < 16777216) && decide (4 + f.body.length < 4294967296)
+
+theorem parseFrame_encFrame (f : Frame) (h : frameOk f = true) : parseFrame (encFrame f) = some f := by
+  simp only [frameOk, Bool.and_eq_true, decide_eq_true_eq] at h
+  obtain ⟨ty, tag, body⟩ := f
+  exact parseFrame_enc tag ty body h.1.1 h.2 h.1.2
+
+theorem parseFrames_enc (fs : List Frame) (h : ∀ f ∈ fs, frameOk f = true) :
+    parseFrames (fs.map encFrame) = some fs := by
+  induction fs with
+  | nil => rfl
+  | cons f fs ih =>
+    simp only [List.map_cons, parseFrames, parseFrame_encFrame f (h f List.mem_cons_self),
+      ih (fun g hg => h g (List.mem_cons_of_mem _ hg))]
+
+/-- framing: the concatenation of any frames parses back into exactly those frames -/
+theorem parseStream_enc (fs : List Frame) (h : ∀ f ∈ fs, frameOk f = true) :
+    parseStream ((fs.map encFrame).flatten) = some fs := by
+  have hc : ∀ c ∈ fs.map encFrame, isChunk c := by
+    intro c hc
+    obtain ⟨f, hf, rfl⟩ := List.mem_map.1 hc
+    have := h f hf
+    simp only [frameOk, Bool.and_eq_true, decide_eq_true_eq] at this
+    exact isChunk_encFrame f this.2
+  simp only [parseStream, splitStream_flatten _ hc]
+  exact parseFrames_enc fs h
+
+/-- the frame an in-domain message is written as -/
+def frameOfItem (it : Nat × Msg) : Frame := ⟨(bodyOf it.2).1, it.1, (bodyOf it.2).2⟩
+
+theorem frameOfItem_ok (it : Nat × Msg) (h : itemOk it = true) : frameOk (frameOfItem it) = true := by
+  simp only [itemOk, Bool.and_eq_true, decide_eq_true_eq] at h
+  have hs := inDomain_size it.2 h.1
+  simp only [frameOk, frameOfItem, bodyOf_type, bodyOf_length, Bool.true_and, Bool.and_eq_true, decide_eq_true_eq]
+  exact ⟨decide_eq_true h.2, by omega⟩
+
+theorem wire_item (it : Nat × Msg) (h : itemOk it = true) : wire it.1 it.2 = .ok (encFrame (frameOfItem it)) := by
+  simp only [itemOk, Bool.and_eq_true] at h
+  exact wire_ok it.1 it.2 h.1
+
+theorem streamOf_ok (items : List (Nat × Msg)) (h : items.all itemOk = true) :
+    streamOf items = ((items.map frameOfItem).map encFrame).flatten := by
+  induction items with
+  | nil => rfl
+  | cons it items ih =>
+    simp only [List.all_cons, Bool.and_eq_true] at h
+    obtain ⟨t, m⟩ := it
+    have hw := wire_item (t, m) h.1
+    simp only at hw
+    simp only [streamOf, hw, ih h.2, List.map_cons, List.flatten_cons]
+
+theorem takeMatch_head (idx : Nat) (it : Nat × Msg) (rest : List (Nat × Msg)) (h : itemOk it = true) :
+    takeMatch idx (frameOfItem it) (it :: rest) = some rest := by
+  simp only [itemOk, Bool.and_eq_true] at h
+  obtain ⟨t, m⟩ := it
+  simp only [takeMatch, frameOfItem, checkBody_bodyOf idx m h.1, Verdict.isOk, and_self, if_true]
+
+theorem matchFrames_items (idx : Nat) (items : List (Nat × Msg)) (h : items.all itemOk = true) :
+    matchFrames idx (items.map frameOfItem) items = .ok := by
+  induction items with
+  | nil => rfl
+  | cons it items ih =>
+    simp only [List.all_cons, Bool.and_eq_true] at h
+    simp only [List.map_cons, matchFrames, takeMatch_head idx it items h.1]
+    exact ih h.2
+
+theorem checkStream_model (idx : Nat) (items : List (Nat × Msg)) (h : items.all itemOk = true) :
+    checkStream idx items (.bytes (streamOf items)) = .ok := by
+  have hok : ∀ f ∈ items.map frameOfItem, frameOk f = true := by
+    intro f hf
+    obtain ⟨it, hit, rfl⟩ := List.mem_map.1 hf
+    exact frameOfItem_ok it (List.all_eq_true.1 h it hit)
+  simp only [checkStream, streamOf_ok items h, parseStream_enc _ hok]
+  exact matchFrames_items idx items h
+
 theorem specObs_run (idx : Nat) (op : Op) : specObs idx op (run op) = .ok := by
   cases op with
   | utf8 s => simp only [specObs]
@@ -659,6 +803,12 @@ theorem specObs_run (idx : Nat) (op : Op) : specObs idx op (run op) = .ok := by
       simp only [Bool.and_eq_true, decide_eq_true_eq] at hg
       simp only [run, wire_ok tag m hg.1, obsBytes, checkWire]
       exact checkFrame_ok idx tag m hg.1 _ (parseFrame_wire tag m hg.1 hg.2)
+    · rfl
+  | stream items =>
+    simp only [specObs]
+    split
+    · rename_i hg
+      exact checkStream_model idx items hg
     · rfl
 
 theorem specGo_trace (ops : List Op) : ∀ idx, specGo idx (comp.trace () () ops) = .ok := by
@@ -933,5 +1083,113 @@ theorem skipContexts_enc (cs : List (Bytes × Bytes)) (r : Bytes)
     simp only
     rw [skipSized_enc _ _ h2]
     exact ih (fun kv hkv => h kv (by simp [hkv]))
+
+/-! ### a stream has one reading -/
+
+theorem splitStreamFuel_inv : ∀ (fuel : Nat) (bs : Bytes) (cs : List Bytes),
+    splitStreamFuel fuel bs = some cs → bs = cs.flatten := by
+  intro fuel
+  induction fuel with
+  | zero =>
+    intro bs cs h
+    simp only [splitStreamFuel] at h
+    split at h
+    · rename_i he; cases h; simpa using he
+    · cases h
+  | succ fuel ih =>
+    intro bs cs h
+    rw [splitStreamFuel] at h
+    split at h
+    · rename_i he; cases h; simpa using he
+    · split at h
+      · cases h
+      · rename_i n hu
+        split at h
+        · cases h
+        · split at h
+          · cases h
+          · rename_i chunk rest ht
+            split at h
+            · cases h
+            · rename_i cs' hs
+              cases h
+              have := take?_inv _ _ _ _ ht
+              rw [List.flatten_cons, ← ih rest cs' hs]
+              exact this.1
+
+theorem allBytes_of_flatten {cs : List Bytes} (h : allBytes cs.flatten) : ∀ c ∈ cs, allBytes c := by
+  intro c hc b hb
+  exact h b (List.mem_flatten.2 ⟨c, hc, hb⟩)
+
+theorem parseFrames_inv : ∀ (cs : List Bytes) (fs : List Frame), (∀ c ∈ cs, allBytes c) →
+    parseFrames cs = some fs → cs = fs.map encFrame ∧ ∀ f ∈ fs, 4 + f.body.length < 4294967296 := by
+  intro cs
+  induction cs with
+  | nil => intro fs _ h; simp only [parseFrames] at h; cases h; exact ⟨rfl, by simp⟩
+  | cons c cs ih =>
+    intro fs hb h
+    simp only [parseFrames] at h
+    split at h
+    · rename_i f fs' hf hfs
+      cases h
+      obtain ⟨e1, e2⟩ := parseFrame_inv c f (hb c List.mem_cons_self) hf
+      obtain ⟨e3, e4⟩ := ih fs' (fun g hg => hb g (List.mem_cons_of_mem _ hg)) hfs
+      refine ⟨?_, ?_⟩
+      · rw [List.map_cons, ← e3]; congr 1
+      · intro g hg
+        rcases List.mem_cons.1 hg with rfl | hg
+        · exact e2
+        · exact e4 g hg
+    · cases h
+
+theorem parseStream_inv (bs : Bytes) (fs : List Frame) (hb : allBytes bs) (h : parseStream bs = some fs) :
+    bs = (fs.map encFrame).flatten ∧ ∀ f ∈ fs, 4 + f.body.length < 4294967296 := by
+  simp only [parseStream] at h
+  split at h
+  · cases h
+  · rename_i cs hs
+    have e := splitStreamFuel_inv _ _ _ hs
+    subst e
+    obtain ⟨e1, e2⟩ := parseFrames_inv cs fs (allBytes_of_flatten hb) h
+    exact ⟨by rw [e1], e2⟩
+
+/-! ### queued messages -/
+
+theorem decodeWire_item (it : Nat × Msg) (hd : it.2.inDomain = true) (htag : it.1 < 16777216) :
+    decodeWire (encFrame (frameOfItem it)) = some (expectedOf it.1 it.2) := by
+  simp only [encFrame, frameOfItem]
+  exact decodeWire_of_parse it.1 it.2 hd _ (parseFrame_wire it.1 it.2 hd htag)
+
+theorem isChunk_item (it : Nat × Msg) (h : itemOk it = true) : isChunk (encFrame (frameOfItem it)) := by
+  have := frameOfItem_ok it h
+  simp only [frameOk, Bool.and_eq_true, decide_eq_true_eq] at this
+  exact isChunk_encFrame _ this.2
+
+theorem items_all_ok (items : List (Nat × Msg))
+    (h : ∀ it ∈ items, it.2.inDomain = true ∧ it.1 < 16777216) : items.all itemOk = true := by
+  rw [List.all_eq_true]
+  intro it hit
+  obtain ⟨hd, htag⟩ := h it hit
+  simp only [itemOk, hd, Bool.true_and]
+  exact decide_eq_true htag
+
+theorem splitStream_streamOf (items : List (Nat × Msg)) (hall : items.all itemOk = true) :
+    splitStream (streamOf items) = some ((items.map frameOfItem).map encFrame) := by
+  rw [streamOf_ok items hall]
+  apply splitStream_flatten
+  intro c hc
+  obtain ⟨f, hf, rfl⟩ := List.mem_map.1 hc
+  obtain ⟨it, hit, rfl⟩ := List.mem_map.1 hf
+  exact isChunk_item it (List.all_eq_true.1 hall it hit)
+
+theorem decode_items (items : List (Nat × Msg)) (h : ∀ it ∈ items, it.2.inDomain = true ∧ it.1 < 16777216) :
+    ((items.map frameOfItem).map encFrame).map decodeWire = items.map (fun it => some (expectedOf it.1 it.2)) := by
+  induction items with
+  | nil => rfl
+  | cons it items ih =>
+    obtain ⟨hd, htag⟩ := h it List.mem_cons_self
+    rw [List.map_cons, List.map_cons, List.map_cons, List.map_cons, decodeWire_item it hd htag,
+      ih (fun g hg => h g (List.mem_cons_of_mem _ hg))]
+
 
 end Scales.MuxCodec
